@@ -42,6 +42,7 @@ def check_partition(track, obs_before, marked, coll, m_vals):
 
 class C11(Check):
     id = 'C11'
+    crosshair = ['c11_split_partitions']      # thorough tier: the same property as a PEP-316 contract analysed by CrossHair (xh/contracts.py)
     title = 'Splitting on a marker partitions the track; markers reflect the thresholds'
     functions = ['segmentation.segmentation', 'segmentation.split', 'Track.extract', 'Track.getObsAnalyticalFeature', 'Track.setObsAnalyticalFeature']
     stubs = ['none (isnan is tracklib\'s own x != x and runs on the proxies)']
